@@ -653,8 +653,22 @@ fn packed_dataflow_program(rng: &mut StdRng) -> Vec<u8> {
         v[0] = 1 << (off % 8);
         Item::Push(v)
     };
-    // value i: calldataload(4 + 32 i) & mask
-    let val = |i: usize, w: usize| vec![p1((4 + 32 * i) as u8), Item::Op(0x35), mask(w), Item::Op(0x16)];
+    // value i: calldataload(4 + 32 i) & mask, computed once and kept on the stack, so that every use is the very
+    // same value (DUP); in one program out of three every use computes it afresh instead
+    let shared = rng.gen_bool(0.67);
+    if shared {
+        for i in 0..nvals {
+            items.extend([p1((4 + 32 * i) as u8), Item::Op(0x35), mask(ws[i]), Item::Op(0x16)]);
+        }
+    }
+    // `extra`: how many items lie above the values at the moment
+    let val = |i: usize, w: usize, extra: usize| -> Vec<Item> {
+        if shared {
+            vec![Item::Op(0x80 + (nvals - 1 - i + extra) as u8)]
+        } else {
+            vec![p1((4 + 32 * i) as u8), Item::Op(0x35), mask(w), Item::Op(0x16)]
+        }
+    };
     let nslots = rng.gen_range(2..4usize);
     let mut placed: Vec<Vec<(usize, usize)>> = Vec::new(); // per slot: (offset, width)
     for slot in 0..nslots {
@@ -669,7 +683,7 @@ fn packed_dataflow_program(rng: &mut StdRng) -> Vec<u8> {
             if pos + ws[i] > 256 {
                 break;
             }
-            items.extend(val(i, ws[i]));
+            items.extend(val(i, ws[i], usize::from(!first)));
             if pos > 0 || rng.gen_bool(0.5) {
                 items.extend([pow2(pos), Item::Op(0x02)]);
             }
@@ -681,7 +695,7 @@ fn packed_dataflow_program(rng: &mut StdRng) -> Vec<u8> {
             pos += ws[i] + 8 * [0usize, 0, 1, 4, 8][rng.gen_range(0..5)];
         }
         if first {
-            items.extend(val(0, ws[0]));
+            items.extend(val(0, ws[0], 0));
             fields.push((0, ws[0]));
         }
         items.extend([p1(slot as u8), Item::Op(0x55)]);
